@@ -51,5 +51,7 @@ SEEDED = [
     ("C10-9", "C10-CODEC"),
     ("C10-10", "C10-LABEL"),
     ("C10-11", "C10-ENDIAN"),
+    ("C10-12", "C10-FOLDER"),
+    ("C10-13", "C10-SIB"),
 ]
 MUTANTS = list(MUTANTS) + [_P("seed-" + sid, _os.path.join(_SEEDS, sid, "patch.diff"), rule) for sid, rule in SEEDED if _os.path.exists(_os.path.join(_SEEDS, sid, "patch.diff"))]
